@@ -11,6 +11,21 @@ UNITS = [
          kind="bounded", bound="exactly 3 tracked trains (loop unwound completely for that size); arbitrary query result per train",
          remove_bodies=[f for f in _st if f != "bidib_state_update_train_available"], extra_flags=["--nondet-static", "--unwind", "5"], covers=1, min_obligations=8,
          stubbed_contracts=["bidib_get_train_position_intern", "bidib_free_train_position_query"]),
+    Unit(name="C08.update_train_available_any_n", src="units/C07/train_available_lc.c", functions=["bidib_state_update_train_available"], props=["C08"],
+         remove_bodies=[f for f in _st if f != "bidib_state_update_train_available"],
+         loops=[{"function": "bidib_state_update_train_available", "anchor": r"for \(size_t i = 0; i < bidib_track_state\.trains->len",
+                 "invariants": "i <= g_n && g_queries == i && g_frees == i && "
+                               + " && ".join("vp_ts[%d].id == &g_ids[%d]" % (q, q) for q in range(16)) + " && "
+                               
+                               "vp_ts[g_k].set_speed_step == g_b_step && (int)vp_ts[g_k].ack == g_b_ack && "
+                               "(g_k < i ==> ((vp_ts[g_k].on_track != 0) == (g_len[g_k] > 0) && (vp_ts[g_k].on_track == 0 || vp_ts[g_k].on_track == 1) && "
+                               "(g_len[g_k] > 0 ==> (int)vp_ts[g_k].orientation == g_exp_or)))",
+                 "assigns": "i, train_state, query, __CPROVER_object_whole(vp_ts), g_queries, g_frees",
+                 "decreases": "g_n - i"}],
+         unwindset={"vp_harness.0": 17}, unwind_reason="constant set-up loop of the harness only; the loop of bidib_state_update_train_available carries a loop contract",
+         timeout=300, covers=2, min_obligations=10,
+         stubbed_contracts=["bidib_get_train_position_intern (arbitrary result per train)", "bidib_free_train_position_query (counted)"],
+         note="any number N of tracked trains (harness memory holds up to 16; N arbitrary in 0..16, loop closed by its invariant, not unwound), one arbitrary watched train K"),
     Unit(name="C07.state_reset", src="units/C07/state_reset.c", functions=["bidib_state_reset", "bidib_booster_normal_to_simple"], props=["C07", "C20", "C16"], no_dfcc=True, kind="bounded",
          bound="2 tracked entities of every kind with arbitrary previous content (segments with 0..2 addresses, trains with 0..2 functions); loops unwound completely",
          remove_bodies=[f for f in _st if f not in ("bidib_state_reset", "bidib_booster_normal_to_simple")], extra_flags=["--nondet-static", "--unwind", "8", "--unwindset", "vp_bytes.0:8", "--memory-leak-check"], covers=2, min_obligations=10, timeout=300,
